@@ -2,6 +2,7 @@
 //! `vh <prop> run`                reads cases on stdin, runs the real library, one result line per case
 mod util;
 mod c02;
+mod c20;
 
 fn main() {
     let args: Vec<String> = std::env::args().collect();
@@ -17,6 +18,8 @@ fn main() {
     match (prop, mode) {
         ("c02", "gen") => c02::gen(seed, thorough),
         ("c02", "run") => c02::run(),
+        ("c20", "gen") => c20::gen(seed, thorough),
+        ("c20", "run") => c20::run(),
         _ => {
             eprintln!("unknown {prop} {mode}");
             std::process::exit(2);
